@@ -72,7 +72,7 @@ def rotate_environment(ctx, shard_index: int) -> None:
     if __debug__ is False:
         ctx.seen("environment", "python -O (asserts stripped)")
     if sys.flags.bytes_warning >= 2:
-        # (only where the unchanged tree is clean under it: han/dlde.py itself compares an int with bytes, so this is used for han/obis.py alone)
+        # (only where the unchanged tree is clean under it: han/dlde.py itself compares an int with bytes, so this is used for han/obis.py and the three DLMS decoders, not for the P1 code)
         ctx.seen("environment", "python -bb (comparing bytes with str is an error)")
     if shard_index % 6 == 4:
         # an application that serves several kinds of meter has imported the other decoders first, in whatever order
